@@ -2,6 +2,8 @@ pub mod c01;
 pub mod c02;
 pub mod c03;
 pub mod c04;
+pub mod c05;
+pub mod c06;
 
 use crate::report::{Report, Tier};
 use serde_json::Value;
@@ -90,6 +92,22 @@ pub fn plan(id: &str) -> Option<Plan> {
             assumptions: BASE_ASSUMPTIONS.to_vec(),
             floor: 50,
             engines: vec![Engine { name: "sim", salt: 1, quick: 6000, thorough: 400_000, serial: false, run: Box::new(|s, t| c03::scenario("C09", s, t)) }],
+            extra: None,
+        },
+        "C05" => Plan {
+            id: "C05",
+            rule: "scenario = seeded retry layer (presets/builder, max_attempts 0-5 fixed or per-request, fixed/exponential/capped/jittered/custom backoff wrapped by a logging adapter, predicate on/off, no budget / token bucket / AIMD budget wrapped by a logging adapter) + 1-5 concurrent requests with outcome scripts of length <=6 over {ok, retryable, non-retryable}; oracle per request over the inner-call log; non-trivial iff >=1 retry happened and (with a budget) >=1 denial or >=2 requests competed; distinct = (poll trace, attempt instants, outcomes, config) signature",
+            assumptions: BASE_ASSUMPTIONS.to_vec(),
+            floor: 50,
+            engines: vec![Engine { name: "sim", salt: 1, quick: 6000, thorough: 400_000, serial: false, run: Box::new(|s, t| c05::scenario(s, t)) }],
+            extra: None,
+        },
+        "C06" => Plan {
+            id: "C06",
+            rule: "scenario = time limiter (fixed or per-request timeout of 1/5/10/50ms, cancel or detach mode) + 1-6 concurrent calls with inner latency 0, T-1ms, T, T+1ms, 3T, never, random, ok/err; oracle compares the virtual instant and value of the outer result and the fate of the inner call with the script; non-trivial iff >=1 timeout and >=1 latency within 1ms of its timeout; distinct = (poll trace, resolution instants, outcomes, mode) signature",
+            assumptions: BASE_ASSUMPTIONS.to_vec(),
+            floor: 50,
+            engines: vec![Engine { name: "sim", salt: 1, quick: 6000, thorough: 400_000, serial: false, run: Box::new(|s, t| c06::scenario(s, t)) }],
             extra: None,
         },
         _ => return None,
